@@ -756,8 +756,9 @@ impl ReCompiler {
                         quantifier_type = Some('*');
                     }
                     Some('{') => {
-                        // bounds are meaningless
-                        quantifier_type = Some('*')
+                        // the lower bound is meaningless, the upper bound
+                        // still limits the number of occurrences
+                        self.bracket_min = 0;
                     }
                     _ => {}
                 }
